@@ -1,3 +1,4 @@
+import NitroVerif.Props.C16
 import NitroVerif.Lemmas.GqlPrintToks
 import NitroVerif.Lemmas.GqlPrintParseTsDoc
 import NitroVerif.Lemmas.GqlPrintWritten
@@ -18,7 +19,7 @@ erased", "what the grammar can produce") and `Spec/GqlString.lean` (the value of
                          indented literals) and parsing gives the document back, under explicit decidable conditions.
 -/
 namespace NitroVerif.C16
-open NitroVerif.Gql NitroVerif.GqlPrint NitroVerif.GqlTokens NitroVerif.GqlString NitroVerif.JsTemplate
+open NitroVerif.Gql NitroVerif.GqlPrint NitroVerif.GqlTokens NitroVerif.GqlString NitroVerif.JsTemplate NitroVerif.Cook
 
 /-! ## 7. token streams of type-system definitions -/
 
@@ -157,10 +158,17 @@ theorem C16_parse_selection_set (ss : List Selection) (hne : ss.isEmpty = false)
     parseSelSet (2 * (selectionSetToks ss).length + 2) (selectionSetToks ss ++ rest) = some (eraseSels ss, rest) :=
   parse_selSet ss hne hwf rest _ (Nat.le_refl _)
 
+example : [Selection.field none "c" {} [] [] none].isEmpty = false ∧ wfSels [.field none "c" {} [] [] none] = true := by
+  decide
+
 /-- For EVERY variable definition `$v : Type = default @dirs` followed by something that does not continue it. -/
 theorem C16_parse_var_def (v : VarDef) (hwf : wfVarDef v = true) (rest : List LTok) (hr : Stops rest) :
     parseVarDef (2 * (varDefToks v).length + 2) (varDefToks v ++ rest) = some (eraseVarDef v, rest) :=
   parse_varDef v hwf rest _ hr (Nat.le_refl _)
+
+example : wfVarDef { name := "v", ty := .nonNull (.list (.named "Int" {}) {}), default := some (.list [.int "1" {}] {}), dirs := [{ name := "d", args := [("a", {}, .enum "E" {})] }] } = true ∧
+    Stops [LTok.p "$"] ∧ Stops [LTok.p ")"] :=
+  ⟨by decide, Stops.dollar _, Stops.close_paren _⟩
 
 /-- For EVERY operation definition the grammar can produce (kind, optional name, variable definitions, directives,
     non-empty selection set) and every continuation. -/
@@ -168,10 +176,15 @@ theorem C16_parse_operation (o : OperationDef) (hwf : wfOp o = true) (rest : Lis
     parseExecDef (2 * (operationToks o).length + 2) (operationToks o ++ rest) = some (.op (eraseOp o), rest) :=
   parse_operation o hwf rest _ (Nat.le_refl _)
 
+example : wfOp { kind := .query, name := some ("N", {}), vars := [{ name := "v", ty := .named "Int" {} }], dirs := [{ name := "d" }], sel := [.field none "c" {} [] [] none] } = true := by
+  decide
+
 /-- For EVERY fragment definition (not named `on`) and every continuation. -/
 theorem C16_parse_fragment (f : FragmentDef) (hwf : wfFrag f = true) (rest : List LTok) :
     parseExecDef (2 * (fragmentToks f).length + 2) (fragmentToks f ++ rest) = some (.frag (eraseFrag f), rest) :=
   parse_fragment f hwf rest _ (Nat.le_refl _)
+
+example : wfFrag { name := "F", cond := "T", sel := [.spread "G" {} [] {}] } = true := by decide
 
 /-- For EVERY executable document of operations and fragments the grammar can produce: parsing its canonical token
     stream gives the document back (positions erased) — the whole input is consumed. -/
@@ -186,6 +199,10 @@ example : wfDoc sampleDoc = true := by decide
 theorem C16_parse_type_def (t : TypeDef) (hwf : wfTypeDef t = true) (rest : List LTok) (hr : ItemFollow rest) :
     parseTsItem (2 * (typeDefToks t).length + 4) (typeDefToks t ++ rest) = some (.typeDef (eraseTypeDef t), rest) :=
   parse_typeDef t hwf rest _ hr (Nat.le_refl _)
+
+example : wfTypeDef { kind := .enum, name := "E", values := [{ name := "A", desc := some "x" }, { name := "B" }] } = true ∧
+    ItemFollow [] ∧ ItemFollow (typeDefToks { kind := .scalar, name := "Date" }) :=
+  ⟨by decide, ItemFollow.nil, by simpa [tsItemToks] using tsItemToks_follow (.typeDef { kind := .scalar, name := "Date" }) []⟩
 
 example : ItemFollow [] ∧ ItemFollow (typeDefToks { kind := .scalar, name := "Date" }) :=
   ⟨ItemFollow.nil, by simpa [tsItemToks] using tsItemToks_follow (.typeDef { kind := .scalar, name := "Date" }) []⟩
@@ -202,10 +219,15 @@ theorem C16_parse_schema_def (s : SchemaDef) (hwf : wfSchemaDef s = true) (rest 
     parseTsItem (2 * (schemaDefToks s).length + 4) (schemaDefToks s ++ rest) = some (.schemaDef (eraseSchemaDef s), rest) :=
   parse_schemaDef s hwf rest _ (Nat.le_refl _)
 
+example : wfSchemaDef { desc := some "s", dirs := [{ name := "a" }], roots := [(.query, "Q", {})] } = true := by decide
+
 /-- For EVERY schema extension (directives, or root operation types, or both). -/
 theorem C16_parse_schema_ext (s : SchemaDef) (hwf : wfSchemaExt s = true) (rest : List LTok) (hr : ItemFollow rest) :
     parseTsItem (2 * (schemaExtToks s).length + 4) (schemaExtToks s ++ rest) = some (.schemaExt (eraseSchemaDef s), rest) :=
   parse_schemaExt s hwf rest _ hr (Nat.le_refl _)
+
+example : wfSchemaExt { dirs := [{ name := "a" }] } = true ∧ wfSchemaExt { roots := [(.mutation, "M", {})] } = true := by
+  decide
 
 /-- For EVERY directive definition with at least one location, all locations being DirectiveLocation names. -/
 theorem C16_parse_directive_def (d : DirectiveDef) (hwf : wfDirectiveDef d = true) (rest : List LTok)
@@ -213,6 +235,9 @@ theorem C16_parse_directive_def (d : DirectiveDef) (hwf : wfDirectiveDef d = tru
     parseTsItem (2 * (directiveDefToks d).length + 4) (directiveDefToks d ++ rest) =
       some (.directiveDef (eraseDirectiveDef d), rest) :=
   parse_directiveDef d hwf rest _ hr (Nat.le_refl _)
+
+example : wfDirectiveDef { name := "dd", args := [{ name := "a", ty := .named "Int" {} }], repeatable := true, locations := ["OBJECT", "FIELD_DEFINITION"] } = true := by
+  decide
 
 /-- For EVERY type-system document (definitions and extensions) the grammar can produce: parsing its canonical token
     stream gives the document back (positions erased). -/
@@ -314,13 +339,67 @@ theorem C16_roundtrip_tokens_counterexample :
       some [.str "a", .name "scalar", .name "S"] := by
   refine ⟨by decide, by decide⟩
 
+/-- the document `serverGraphqlOutput` prints for the checked document `d`: `@nitrogql_ts_type` stripped, and `@model`
+    too when the model plugin is on (specification side: `Strip.stripDirective`) -/
+def serverDoc (d : TsDoc) (modelPlugin : Bool) : TsDoc :=
+  if modelPlugin then Strip.stripDirective modelName (Strip.stripDirective nitroName d) else Strip.stripDirective nitroName d
+
+/-- All layers together, for the `serverGraphqlOutput` module of EVERY checked document `d` that applies the two
+    nitrogql-only directives where the checker allows, and whose stripped form `d' = serverDoc d …` has GraphQL-Name-like
+    names, is derivable from the grammar, has no member-less union and only strings for which `print_string` is exact:
+    (1) the module text is the wrapper around the template literal of the printed `d'`;
+    (2) evaluating the template literal (ECMAScript cooking) gives a line feed and exactly the printed SDL text;
+    (3) the token sequence of that text (string tokens decoded from the written literals) parses, with the
+        specification's parser, to `d'` — the checked schema without the stripped directives, positions erased. -/
+theorem server_module_roundtrip_tokens (d : TsDoc) (modelPlugin : Bool) (h1 : OnlyOnScalars nitroName d)
+    (h2 : modelPlugin = true → OnlyOnObjects modelName (Strip.stripDirective nitroName d))
+    (hn : ∀ t ∈ printTsDoc (serverDoc d modelPlugin), t.nameOK = true)
+    (hwf : wfTsDoc (serverDoc d modelPlugin) = true) (hu : (serverDoc d modelPlugin).all itemUnionOK = true)
+    (hs : strsOK (tsDocToks (serverDoc d modelPlugin)) = true) :
+    serverGraphqlOutput d modelPlugin = serverModule (ops (printTsDoc (serverDoc d modelPlugin))) ∧
+    cook ('\n' :: runOps true {} (ops (printTsDoc (serverDoc d modelPlugin)))) =
+      some ('\n' :: text (printTsDoc (serverDoc d modelPlugin))) ∧
+    (lexW 0 (printTsDoc (serverDoc d modelPlugin))).bind parseTsDocument = some (eraseTsDoc (serverDoc d modelPlugin)) := by
+  refine ⟨?_, server_template_cooks _ hn, C16_roundtrip_tokens_ts _ hwf hu hs⟩
+  unfold serverGraphqlOutput serverDoc
+  cases modelPlugin with
+  | false => simp [strip_exact d h1]
+  | true => simp [strip_exact d h1, strip_model_exact _ (h2 rfl)]
+
+/-- a checked document with both nitrogql-only directives, for the satisfiability of the hypotheses -/
+def sampleChecked : TsDoc := [
+  .typeDef { kind := .scalar, name := "Date", desc := some "a date\nISO", dirs := [{ name := "nitrogql_ts_type", args := [("resolverInput", {}, .str "string" {})] }, { name := "specifiedBy" }] },
+  .directiveDef { name := "nitrogql_ts_type", args := [{ name := "resolverInput", ty := .nonNull (.named "String" {}) }], locations := ["SCALAR"] },
+  .directiveDef { name := "model", locations := ["OBJECT", "FIELD_DEFINITION"] },
+  .typeDef { kind := .object, name := "User", dirs := [{ name := "model" }],
+             fields := [{ name := "id", ty := .nonNull (.named "ID" {}), dirs := [{ name := "model" }, { name := "deprecated" }] },
+                        { name := "born", ty := .named "Date" {} }] }]
+
+example : (∀ t ∈ printTsDoc (serverDoc sampleChecked true), t.nameOK = true) ∧
+    wfTsDoc (serverDoc sampleChecked true) = true ∧ (serverDoc sampleChecked true).all itemUnionOK = true ∧
+    strsOK (tsDocToks (serverDoc sampleChecked true)) = true := by decide
+
+example : OnlyOnScalars nitroName sampleChecked := by
+  intro i hi
+  simp only [sampleChecked, List.mem_cons, List.mem_nil_iff, or_false] at hi
+  rcases hi with rfl | rfl | rfl | rfl <;> decide
+
+example : OnlyOnObjects modelName (Strip.stripDirective nitroName sampleChecked) := by
+  have e : Strip.stripDirective nitroName sampleChecked = [
+      .typeDef { kind := .scalar, name := "Date", desc := some "a date\nISO", dirs := [{ name := "specifiedBy" }] },
+      .directiveDef { name := "model", locations := ["OBJECT", "FIELD_DEFINITION"] },
+      .typeDef { kind := .object, name := "User", dirs := [{ name := "model" }],
+                 fields := [{ name := "id", ty := .nonNull (.named "ID" {}), dirs := [{ name := "model" }, { name := "deprecated" }] },
+                            { name := "born", ty := .named "Date" {} }] }] := by rfl
+  rw [e]
+  intro i hi
+  simp only [List.mem_cons, List.mem_nil_iff, or_false] at hi
+  rcases hi with rfl | rfl | rfl <;> decide
+
 /-
-OPEN — carried by K/O only (never claimed as proved)
-  * the character-level lexer: `lexW` takes names, numbers and punctuators as the printer tokens they are and decodes
-    only string literals from the written text (with the writer's indentation — `str_token_text` ties that to the
-    writer); that the layout the printer writes between two significant tokens always separates them (e.g. a blank
-    between two names) is not proved — K compares the text byte for byte and O re-parses it with the real parser.
-  * the composition over nitrogql's own parser (C07's PEG model) instead of the specification's token parser.
+CONTINUED in `Props/C16Text.lean`: the character-level lexer (`lexW` here takes names, numbers and punctuators as the
+printer tokens they are; there the written TEXT is lexed by the lexical grammar of the specification, and the printer
+is shown to separate its tokens), and the composition with the template layer.
 -/
 
 end NitroVerif.C16
